@@ -35,6 +35,9 @@ def run(ctx) -> None:
                                        "it sets the flag before arming the kill timer"),
         ("C13.R5-last-action", "schedule_next_instance fires when producers are finished; CreateMonitor performs the action once more "
                                "after cancel when lastAction=True (constant at the call site)"),
+        ("C13.R7-kill-delay-serviced", "once the kill-after-producers-done timer has set _suicide, the next pass of EngineTaskController "
+                                       "(lastAction False) calls self.kill() on every path; the timer callback sets the flag before "
+                                       "it looks at the process"),
         ("C13.R6-exit-reason", "RepeatingEngine.exitReason is non-None only when the cancel event is set and no process ever ran or the kernel completed"),
     ]:
         ctx.rule(rid, text)
@@ -65,9 +68,16 @@ def run(ctx) -> None:
     live_tests = match.test_nodes(cfg, lambda t: "T" if source.src(t) == LIVE else None)
     last_tests = match.test_nodes(cfg, lambda t: "T" if isinstance(t, ast.Name) and t.id == "lastAction" else None)
 
+    # expressions whose truth value cannot change during one pass: the parameter lastAction (never reassigned) and the
+    # monotone flag _suicide (only ever set to True, by the timer)
+    stable = set()
+    if not any(isinstance(x, ast.Name) and x.id == "lastAction" and isinstance(x.ctx, ast.Store) for x in ast.walk(etc)):
+        stable.add("lastAction")
+    if not any(isinstance(x, ast.Assign) and any(source.src(t) == "self._suicide" for t in x.targets) for x in ast.walk(etc)):
+        stable.add("self._suicide")
     for k in kills:
         edges = snap_tests + suicide_tests
-        ok = bool(snap_tests) and match.only_via_edges(cfg, k, edges)
+        ok = bool(snap_tests) and match.only_via_edges_consistent(cfg, k, edges, stable)
         ctx.ob("C13.R1-snapshot-before-launch", k.ast, ok,
                "self.kill() is reachable only when the producers were already finished before this execution started "
                "(snapshot) or the kill timer fired" if ok else
@@ -110,6 +120,57 @@ def run(ctx) -> None:
                "no local snapshot of self._producers_are_finished is taken in EngineTaskController",
                construct="snapshot = self._producers_are_finished (missing)")
 
+    # ---------------- R7 ------------------------------------------------------------------------------
+    # paths with lastAction == False: the monitor was not cancelled yet, so nobody else will stop the engine
+    blocked = set(flow.specialise(cfg, {"lastAction": False}))
+    alias_assigns = [n for n in cfg.nodes if n.kind == "stmt" and isinstance(n.ast, ast.Assign) and len(n.ast.targets) == 1
+                     and isinstance(n.ast.value, ast.Name) and n.ast.value.id == "lastAction"]
+    for a in alias_assigns:
+        ttext = source.src(a.ast.targets[0])
+        others = [n for n in cfg.nodes if n.kind == "stmt" and isinstance(n.ast, (ast.Assign, ast.AugAssign)) and n is not a
+                  and any(source.src(t) == ttext for t in (n.ast.targets if isinstance(n.ast, ast.Assign) else [n.ast.target]))]
+        for t in cfg.nodes:
+            if t.kind == "test" and t.ast is not None and source.src(t.ast) == ttext:
+                if cfg.every_path_to_passes(t, gates=[a]) and t.id not in cfg.reach(others, blocked=[a]):
+                    blocked.add((t.id, "T"))      # the test reads a copy of lastAction (False on these paths)
+    n7 = 0
+    for (tn, lab) in suicide_tests:
+        n7 += 1
+        succ = [m for (m, l2) in tn.succ if l2 == lab]
+        # _suicide is monotone (set once by the timer, never reset in this function): later tests of it agree
+        mono = not any(isinstance(x, ast.Assign) and any(source.src(t) == "self._suicide" for t in x.targets) for x in ast.walk(etc))
+        b2 = set(blocked) | ({(n.id, match.other(l)) for n, l in suicide_tests} if mono else set())
+        r = cfg.reach(succ, blocked=kills, blocked_edges=b2, ignore_labels=("exc",))
+        # only paths on which this test can be reached with lastAction False matter
+        feasible = tn.id in cfg.reach([cfg.entry], blocked_edges=blocked)
+        ok = (not feasible) or (cfg.exit.id not in r)
+        ctx.ob("C13.R7-kill-delay-serviced", tn.ast, ok,
+               "after the kill timer fired, every path of this pass reaches self.kill()" if ok else
+               "with _suicide set and lastAction False this pass of EngineTaskController returns without calling self.kill(): "
+               "when the kill-after-producers-done-delay expires between two invocations while self.process still holds an "
+               "earlier, finished task, the timer callback only calls process.kill() (a no-op) and every later pass takes this "
+               "path - the engine never stops", construct="self._suicide (lastAction False) => self.kill() on every path")
+    ctx.floor("C13.R7-kill-delay-serviced", n7, 1, "tests of self._suicide in EngineTaskController")
+    napf = eng.func("RepeatingEngine.notify_all_producers_finished")
+    ctx.analysed(napf)
+    sui = [f for f in ast.walk(napf) if isinstance(f, ast.FunctionDef) and f is not napf]
+    setters = [f for f in sui if any(isinstance(x, ast.Assign) and any(source.src(t) == "self._suicide" for t in x.targets)
+                                     and isinstance(x.value, ast.Constant) and x.value.value is True for x in ast.walk(f))]
+    ok = bool(setters)
+    if ok:
+        f = setters[0]
+        c7 = CFG(f)
+        set_nodes = [n for n in c7.nodes if n.kind == "stmt" and isinstance(n.ast, ast.Assign) and any(source.src(t) == "self._suicide" for t in n.ast.targets)]
+        acts = match.nodes_calling(c7, lambda c: last_attr(c) == "kill")
+        ok = bool(acts) and all(c7.every_path_to_passes(a, gates=set_nodes) for a in acts)
+        # every path of the callback stops something (the process or the engine)
+        r = c7.reach([c7.entry], blocked=acts, ignore_labels=("exc",))
+        ok = ok and c7.exit.id not in r
+    ctx.ob("C13.R7-kill-delay-serviced", setters[0] if setters else napf, ok,
+           "the timer callback sets _suicide before it kills the process or the engine, on every path" if ok else
+           "the kill-after-producers-done callback does not (first) set _suicide / can return without killing anything",
+           construct="suicide(): _suicide = True precedes kill")
+
     # ---------------- R2 ------------------------------------------------------------------------------
     decs = [n for n in cfg.nodes if n.kind == "stmt" and isinstance(n.ast, ast.AugAssign) and isinstance(n.ast.op, ast.Sub)
             and "repeatRetries" in source.src(n.ast.target)]
@@ -117,23 +178,25 @@ def run(ctx) -> None:
                                                          and isinstance(match.compare_parts(t)[1], (ast.Eq, ast.LtE))
                                                          and isinstance(match.compare_parts(t)[2], ast.Constant)
                                                          and match.compare_parts(t)[2].value == 0) else None)
-    starts = []
+    # a pass "enters the decision" when it takes the true side of the snapshot test or of a _suicide test; from there every
+    # feasible path (consistent in lastAction/_suicide and copies of them) must kill or use up a retry before it returns
+    decision_edges = {(tn.id, lab) for (tn, lab) in snap_tests + suicide_tests}
+    ctx.require(bool(decision_edges) or not snap_tests, "cannot locate the decision block of EngineTaskController")
+    base_step = match.stable_step(cfg, stable)
+
     for (tn, lab) in snap_tests + suicide_tests:
-        starts += [m for (m, l2) in tn.succ if l2 == lab]
-    # the decision block: reached from the T edges, but not the early "lastAction or self._suicide" prologue
-    starts = [s for s in starts if not any(s.id in cfg.reach([m for (m, l2) in ln.succ if l2 == "T"]) and
-                                           not any(k.id in cfg.reach([s]) for k in kills) for ln, _ in last_tests)]
-    block_starts = [s for s in starts if any(k.id in cfg.reach([s]) for k in kills)]
-    ctx.require(bool(block_starts) or not snap_tests, "cannot locate the decision block of EngineTaskController")
-    for s in block_starts:
-        r = cfg.reach([s], blocked=kills + decs, ignore_labels=("exc",))
-        ok = cfg.exit.id not in r and (s in kills + decs or True)
-        if s in kills or s in decs:
-            ok = True
-        ctx.ob("C13.R2-progress", s.ast if s.ast is not None else etc, ok,
-               "every path through the decision block calls kill() or uses up one retry" if ok else
+        def step3(src, label, dst, state, _e=(tn.id, lab)):
+            st, entered = state
+            ns = base_step(src, label, dst, st)
+            if ns is None:
+                return None
+            return (ns, entered or ((src.id, label) == _e))
+        pr = cfg.reach_product(cfg.entry, (frozenset(), False), step3, blocked=kills + decs, ignore_labels=("exc",))
+        ok = not any(nid == cfg.exit.id and st[1] for (nid, st) in pr)
+        ctx.ob("C13.R2-progress", tn.ast, ok,
+               "every feasible path that takes this decision calls kill() or uses up one retry" if ok else
                "a path through the decision block neither kills the engine nor decrements repeatRetries: the engine can "
-               "spin forever after its producers finished", construct="decision block: kill() or repeatRetries -= 1")
+               "spin forever after its producers finished", construct="decision %s: kill() or repeatRetries -= 1" % short(tn.ast, 50))
     for d in decs:
         ok = isinstance(d.ast.value, ast.Constant) and d.ast.value.value == 1
         ctx.ob("C13.R2-progress", d.ast, ok, "repeatRetries is decremented by 1" if ok else "repeatRetries is not decremented by 1")
@@ -322,11 +385,13 @@ def run(ctx) -> None:
            "continueAction is cleared outside the cancel branch", construct="continueAction = False only on cancel")
     # the prologue of EngineTaskController: lastAction => kernelCompleted = lastAction
     kc = [n for n in cfg.nodes if n.kind == "stmt" and isinstance(n.ast, ast.Assign)
-          and any(source.src(t) == "self.kernelCompleted" for t in n.ast.targets) and isinstance(n.ast.value, ast.Name)
-          and n.ast.value.id == "lastAction"]
-    ok = bool(kc) and bool(last_tests)
+          and any(source.src(t) == "self.kernelCompleted" for t in n.ast.targets)
+          and ((isinstance(n.ast.value, ast.Name) and n.ast.value.id == "lastAction")
+               or (isinstance(n.ast.value, ast.Constant) and n.ast.value.value is True))]
+    r5 = match.reach_consistent(cfg, [cfg.entry], stable, blocked=kc, ignore_labels=("exc",), init=[("lastAction", True)])
+    ok = bool(kc) and "lastAction" in stable and cfg.exit.id not in r5
     ctx.ob("C13.R5-last-action", kc[0].ast if kc else etc, ok, "the final call marks the kernel completed" if ok else
-           "the final call (lastAction) no longer marks the kernel as completed", construct="self.kernelCompleted = lastAction")
+           "the final call (lastAction) no longer marks the kernel as completed", construct="lastAction => self.kernelCompleted = True")
     # the final observation itself: with lastAction (and not suicide) nothing executes; the execution that began after
     # producers finished is the one guarded by R1.
 
